@@ -43,6 +43,17 @@ pub fn content(name: &str, version: u16) -> Option<Node> {
         "two-fat" => vec![stream("big", 70_000, 5), stream("s", 100, 6)],
         // names that fill the 64-byte name field completely (31 units + terminator)
         "long-names" => vec![stream(&"n".repeat(31), 70, 2), storage(&"\u{e9}".repeat(31), vec![stream("x", 5, 3)])],
+        // storages stamped by another writer: instants before 1970 with and without a sub-second part,
+        // 100 ns after the FILETIME origin, and a recent instant with a sub-second part
+        "old-times" => {
+            let mut a = storage("apollo", vec![stream("x", 5, 3)]);
+            a.created = 116_302_906_594_050_000; // 1969-07-20T20:17:39.405Z
+            a.modified = 116_302_906_590_000_000; // a whole second, before 1970
+            let mut b = storage("origin", vec![]);
+            b.created = 1;
+            b.modified = 131_277_024_009_999_999; // 2017, 999999.9 microseconds into its second
+            vec![a, b, stream("s", 70, 0)]
+        }
         "three-minis" => vec![stream("m1", 130, 0), stream("m2", 64, 0), stream("m3", 1, 0)],
         "nested" => vec![storage("d", vec![storage("e", vec![stream("f", 100, 9)]), stream("g", 5000, 0)]), stream("h", 3, 0)],
         "empty" => vec![],
@@ -51,12 +62,16 @@ pub fn content(name: &str, version: u16) -> Option<Node> {
     root.clsid = [9; 16];
     root.state_bits = 5;
     root.modified = ops::pin_filetime();
+    if name == "old-times" {
+        root.created = 116_444_735_999_999_999; // 100 ns before 1970
+        root.modified = 94_354_848_005_000_000; // 1900, half a second into its second
+    }
     Some(root)
 }
 
 pub const CONTENTS: [&str; 10] = ["empty", "two-mini", "one-big", "three-mixed", "four-sizes", "four-names", "three-minis", "nested", "two-fat", "long-names"];
 /// Contents of the layout enumeration (C04): the above plus two whose sibling order hinges on case folding.
-pub const LAYOUT_CONTENTS: [&str; 12] = ["empty", "two-mini", "one-big", "three-mixed", "four-sizes", "four-names", "three-minis", "nested", "punct-names", "cased-names", "two-fat", "long-names"];
+pub const LAYOUT_CONTENTS: [&str; 13] = ["empty", "two-mini", "one-big", "three-mixed", "four-sizes", "four-names", "three-minis", "nested", "punct-names", "cased-names", "two-fat", "long-names", "old-times"];
 
 #[derive(Clone, Debug, Serialize, Deserialize)]
 pub struct LayoutCase {
